@@ -7,7 +7,7 @@ panics are values (rule R-panic), so "panics iff L != N" is an ordinary postcond
 import re
 
 NAME = 'views'
-PROPS = ['C02', 'C09', 'C10', 'C18']
+PROPS = ['C02', 'C09', 'C10', 'C11', 'C18']
 DROPPED = 'bytes (offsets are in elements; element size is factored out by C01); panic messages; the const-ness of the functions'
 FILE = 'src/lib.rs'
 GA = 'impl<T, N: ArrayLength> GenericArray<T, N>'
@@ -113,7 +113,7 @@ def generate(g, ex):
     ], stats)
     ex.check_supported('const_transmute', body)
     g.emit_fn(Fn('const_transmute', FILE, f['line'], f['sig'], 'pub fn const_transmute(a: Bits, size_b: usize) -> (ret: PanicOr<Bits>)', body, [],
-                 [('panics-iff-sizes-differ', ['C02', 'C10'], 'ret is Panic <==> a.size != size_b')], stats, n, PROPS))
+                 [('panics-iff-sizes-differ', ['C02', 'C10', 'C11'], 'ret is Panic <==> a.size != size_b'), ('reinterprets-the-same-bytes', ['C02', 'C11'], 'ret is Ret ==> ret->Ret_0.size == size_b')], stats, n, PROPS))
 
     # ---- by-reference Split::split (src/sequence.rs): the two adjacent sub-ranges of the original storage, no copy ----
     seq = g.src('src/sequence.rs')
@@ -143,6 +143,44 @@ def generate(g, ex):
                       ('second-half-adjacent', ['C09'], 'ret.1.base == self_.base && ret.1.off == self_.off + K::n() && ret.1.len == 1 && ret.1.stride == N::n() - K::n()'),
                       ('cover-exactly', ['C09'], 'ret.0.end() == ret.1.start() && ret.1.end() == self_.end()')],
                      stats, n, ['C09']))
+
+    # ---- Flatten / Unflatten (src/sequence.rs): owned forms go through const_transmute (sizes must agree), reference forms through
+    #      mem::transmute of the reference (same address, same extent).  Sizes are in elements of T (bytes: C01's lemma, unit `layout`) ----
+    def flat(trait, hdr_re, form, vname, vsig, requires, ensures, rules):
+        m = re.search(hdr_re, seq)
+        if not m:
+            raise ex.LostAnchor('%s impl (%s) not found' % (trait, form))
+        i = m.end() - 1
+        block = seq[i + 1:ex.match_brace(seq, i)]
+        fn = 'flatten' if trait == 'Flatten' else 'unflatten'
+        f = ex.find_fn(block, fn, i + 1, seq)
+        stats = {}
+        body = ex.normalize(f['body'])
+        n = ex.statements(body)
+        body = ex.apply_rules(body, [('R-misc', r'\bunsafe \{', '{')] + rules, stats)
+        ex.check_supported(vname, body, allow=('const_transmute(',))
+        g.emit_fn(Fn(vname, 'src/sequence.rs', f['line'], f['sig'], vsig, body, requires, ensures, stats, n, ['C11']))
+
+    OWN_REQ = ['a.size == N::n() * M::n()  /* M arrays of N elements: extent N*M elements (lemma_nested, unit layout) */']
+    flat('Flatten', r'unsafe impl<T, N, M> Flatten<T, N, M> for GenericArray<GenericArray<T, N>, M>\s*where[^{]*\{', 'owned', 'flatten_owned',
+         'pub fn flatten_owned<N: ArrayLength, M: ArrayLength>(a: Bits) -> (ret: PanicOr<Bits>)', OWN_REQ + ['N::n() * M::n() <= usize::MAX'],
+         [('never-panics-same-extent', ['C11'], 'ret is Ret && ret->Ret_0.size == N::n() * M::n()')],
+         [('R-call', r'crate::const_transmute\(self\)', 'const_transmute(a, (N::usize_() * M::usize_()))')])
+    flat('Unflatten', r'unsafe impl<T, NM, N> Unflatten<T, NM, N> for GenericArray<T, NM>\s*where[^{]*\{', 'owned', 'unflatten_owned',
+         'pub fn unflatten_owned<NM: ArrayLength, N: ArrayLength>(a: Bits) -> (ret: PanicOr<Bits>)', ['a.size == NM::n()', 'N::n() > 0', 'NM::n() % N::n() == 0'],
+         [('never-panics-same-extent', ['C11'], 'ret is Ret && ret->Ret_0.size == NM::n()')],
+         [('R-call', r'crate::const_transmute\(self\)', '({ proof { vstd::arithmetic::div_mod::lemma_fundamental_div_mod(NM::n() as int, N::n() as int); assert((NM::n() / N::n()) * N::n() == N::n() * (NM::n() / N::n())) by (nonlinear_arith); } const_transmute(a, ((NM::usize_() / N::usize_()) * N::usize_())) })')])
+    for form, pref in (('ref', r"&'a "), ('mut', r"&'a mut ")):
+        flat('Flatten', r"unsafe impl<'a, T, N, M> Flatten<T, N, M> for " + pref + r"GenericArray<GenericArray<T, N>, M>\s*where[^{]*\{", form, 'flatten_' + form,
+             'pub fn flatten_%s<N: ArrayLength, M: ArrayLength>(self_: Sl) -> (ret: Sl)' % form, ['self_.len == M::n()', 'self_.stride == N::n()', 'self_.valid()'],
+             [('same-address', ['C11'], 'ret.base == self_.base && ret.off == self_.off'),
+              ('same-extent-N-times-M-elements', ['C11'], 'ret.len == 1 && ret.stride == N::n() * M::n() && ret.end() == self_.end()')],
+             [('R-ptr', r'mem::transmute\(self\)', '({ assert(N::n() * M::n() == M::n() * N::n()) by (nonlinear_arith); self_.retype_ref(1, N::usize_() * M::usize_()) })')])
+        flat('Unflatten', r"unsafe impl<'a, T, NM, N> Unflatten<T, NM, N> for " + pref + r"GenericArray<T, NM>\s*where[^{]*\{", form, 'unflatten_' + form,
+             'pub fn unflatten_%s<NM: ArrayLength, N: ArrayLength>(self_: Sl) -> (ret: Sl)' % form, ['self_.len == 1', 'self_.stride == NM::n()', 'self_.valid()', 'N::n() > 0', 'NM::n() % N::n() == 0'],
+             [('same-address', ['C11'], 'ret.base == self_.base && ret.off == self_.off'),
+              ('same-extent-rows-of-N', ['C11'], 'ret.len == NM::n() / N::n() && ret.stride == N::n() && ret.end() == self_.end()')],
+             [('R-ptr', r'mem::transmute\(self\)', '({ proof { vstd::arithmetic::div_mod::lemma_fundamental_div_mod(NM::n() as int, N::n() as int); assert((NM::n() / N::n()) * N::n() == N::n() * (NM::n() / N::n())) by (nonlinear_arith); } self_.retype_ref(NM::usize_() / N::usize_(), N::usize_()) })')])
     g.raw('proof fn canary() { assert(false); } /*OB:canary:*/')
     g.raw('} // verus!\nfn main() {}\n')
 
@@ -150,6 +188,8 @@ def generate(g, ex):
 def props_for(fname, what):
     if fname and fname.startswith('split_'):
         return ['C09']
+    if fname and 'flatten' in fname:
+        return ['C11']
     if fname and ('chunks' in fname):
         return ['C10', 'C18']
     return ['C02', 'C18']
